@@ -566,6 +566,65 @@ def probes_for(r, fam, n_members, limit):
 
 
 # ------------------------------------------------------------------ the check
+def probe_user_subclasses(ctx):
+    """Schemas of user-defined subclasses of the built-in schema classes (outside the model's
+    universe): == returns a bool, != is its negation and == is reflexive, in every pairing of a
+    derived instance with a base instance.  (Symmetry is NOT demanded here: on the unchanged code
+    base == derived compares props while derived == base is False - an observation, DESIGN 12.2.)"""
+    from d42.declaration.types import DictSchema, FloatSchema, IntSchema, ListSchema, StrSchema
+
+    class PortSchema(IntSchema):
+        pass
+
+    class RatioSchema(FloatSchema):
+        pass
+
+    class NameSchema(StrSchema):
+        pass
+
+    class RowSchema(DictSchema):
+        pass
+
+    class TagsSchema(ListSchema):
+        pass
+
+    from d42 import schema
+    fams = [
+        (PortSchema, schema.int, [lambda s: s, lambda s: s.min(1), lambda s: s(5), lambda s: s.min(1).max(9)]),
+        (RatioSchema, schema.float, [lambda s: s, lambda s: s.min(0.5), lambda s: s(1.5).precision(1)]),
+        (NameSchema, schema.str, [lambda s: s, lambda s: s.len(2), lambda s: s("ab"), lambda s: s.alphabet("ab")]),
+        (RowSchema, schema.dict, [lambda s: s, lambda s: s({"a": schema.int}), lambda s: s({"a": schema.int, ...: ...})]),
+        (TagsSchema, schema.list, [lambda s: s, lambda s: s(schema.int), lambda s: s([schema.int, ...]).len(1, 3)]),
+    ]
+    n = 0
+    for cls, base0, builds in fams:
+        insts = [(f"{cls.__name__}{i}", b(cls())) for i, b in enumerate(builds)] + \
+                [(f"base{i}", b(base0)) for i, b in enumerate(builds)]
+        for na, a in insts:
+            for nb, b in insts:
+                n += 1
+                try:
+                    e, ne = (a == b), (a != b)
+                except Exception as ex:  # noqa
+                    ctx.violation(f"== / != between a user subclass instance and a base instance raises {type(ex).__name__}",
+                                  {"kind": "input", "left": na, "right": nb, "class": cls.__name__, "observed": repr(ex)})
+                    return n
+                bad = None
+                if not isinstance(e, bool) or not isinstance(ne, bool):
+                    bad = f"== returned {e!r}, != returned {ne!r} (not booleans)"
+                elif ne != (not e):
+                    bad = f"== is {e} but != is {ne}"
+                elif a is b and not e:
+                    bad = "s == s is False"
+                if bad:
+                    ctx.violation("equality laws fail for a user-defined subclass of a schema class: " + bad,
+                                  {"kind": "input", "left": f"{na} ({type(a).__name__}, {a!r})",
+                                   "right": f"{nb} ({type(b).__name__}, {b!r})", "observed": bad,
+                                   "expected": "booleans, != the negation of ==, s == s"})
+                    return n
+    return n
+
+
 def run(ctx):
     r = ctx.rng
     depth = ctx.scale(3, 5)
@@ -765,6 +824,7 @@ def run(ctx):
                       failing_input=False)
 
     distinct = len({t for t, _ in all_cases})
+    stats["user_subclass_pairs"] = probe_user_subclasses(ctx)
     ctx.coverage.update(
         evaluations=oracle,
         distinct_nontrivial=distinct,
